@@ -128,3 +128,54 @@ package plan
 //@   ensures case sorted:   sorted(ret0)
 //@   ensures case sound:    forall(x int, mem(ret0, x) ==> mem(l1, x) && mem(l2, x))
 //@   ensures case complete: forall(x int, mem(l1, x) && mem(l2, x) ==> mem(ret0, x))
+
+// ---------------------------------------------------------------- C05 UPDATE / DELETE never move a row; affected rows add up
+// The resolution of an assignment's column to a sharding rule (aliases, database and table qualifiers) is done by
+// needCreateColumnNameDecorator; it is represented by uninterpreted functions of the statement info and the column node
+// (assumed contract: the resolution itself -- alias maps, case folding -- is not under contract).
+//@ pure colRule(p *TableAliasStmtInfo, n *ast.ColumnName) router.Rule
+//@ pure colSharded(p *TableAliasStmtInfo, n *ast.ColumnName) bool
+//@ func needCreateColumnNameDecorator
+//@   assigns \nothing
+//@   ensures ret3 == nil ==> ret0 == colRule(p, n) && ret1 == colSharded(p, n)
+//@ func removeSchemaAndTableInfoInColumnName
+//@   requires column != nil
+//@   assigns column.Schema, column.Table
+//@ constglobal errors.ErrUpdateKey
+//@ axiom errUpdateKeyNonNil: errors.ErrUpdateKey != nil
+//@ property C05: removeSchemaAndTableInfoInColumnName, handleUpdateAssignmentList, handleInsertOnDuplicate, MergeExecResult
+// an UPDATE is accepted only when no assignment targets the sharding column of the table its column resolves to
+//@ func handleUpdateAssignmentList
+//@   requires p != nil && p.stmt != nil && forall(k, 0, len(p.stmt.List), p.stmt.List[k] != nil && p.stmt.List[k].Column != nil)
+//@   requires forall(a, 0, len(p.stmt.List), forall(b, 0, len(p.stmt.List), a != b ==> p.stmt.List[a].Column != p.stmt.List[b].Column))
+//@   loop 0 invariant forall(k, 0, rangeindex + 1, !(colSharded(p.TableAliasStmtInfo, l[k].Column) && shardCol(colRule(p.TableAliasStmtInfo, l[k].Column)) == old(l[k].Column.Name.L)))
+//@   loop 0 invariant forall(k, rangeindex + 1, len(l), l[k].Column.Name.L == old(l[k].Column.Name.L)) && forall(k, 0, len(l), l[k] == old(l[k]) && l[k].Column == old(l[k].Column))
+//@   loop 0 assigns fieldsof(ast.ColumnName)
+//@   ensures ret0 == nil ==> forall(k, 0, len(p.stmt.List), !(colSharded(p.TableAliasStmtInfo, p.stmt.List[k].Column) && shardCol(colRule(p.TableAliasStmtInfo, p.stmt.List[k].Column)) == old(p.stmt.List[k].Column.Name.L)))
+// INSERT ... ON DUPLICATE KEY UPDATE is accepted only when no assignment targets the sharding column of the inserted table
+//@ func handleInsertOnDuplicate
+//@   requires p != nil && p.stmt != nil && forall(k, 0, len(p.stmt.OnDuplicate), p.stmt.OnDuplicate[k] != nil && p.stmt.OnDuplicate[k].Column != nil)
+//@   requires p.StmtInfo != nil && has(p.tableRules, p.table) && p.tableRules[p.table] != nil
+//@   loop 0 invariant forall(k, 0, rangeindex + 1, old(p.stmt.OnDuplicate[k].Column.Name.L) != shardingColumnName)
+//@   loop 0 invariant forall(k, rangeindex + 1, len(p.stmt.OnDuplicate), p.stmt.OnDuplicate[k].Column.Name.L == old(p.stmt.OnDuplicate[k].Column.Name.L)) && forall(k, 0, len(p.stmt.OnDuplicate), p.stmt.OnDuplicate[k] == old(p.stmt.OnDuplicate[k]) && p.stmt.OnDuplicate[k].Column == old(p.stmt.OnDuplicate[k].Column))
+//@   loop 0 assigns fieldsof(ast.ColumnName)
+//@   ensures ret0 == nil ==> forall(k, 0, len(p.stmt.OnDuplicate), old(p.stmt.OnDuplicate[k].Column.Name.L) != shardCol(old(p.tableRules[p.table])))
+// the merged execution result of the shards: affected rows add up (64-bit), status flags are or-ed, the insert id is the
+// smallest non-zero one. arsum / stor / minid: the folds over the result list (definitional axioms over the list at entry; the
+// shard results are not written). The pooled result object is assumed distinct from every shard result (pool discipline).
+//@ pure arsum(rs []*mysql.Result, i int) uint64
+//@ pure stor(rs []*mysql.Result, i int) uint16
+//@ pure minid(rs []*mysql.Result, i int) uint64
+//@ axiom arsumZero for MergeExecResult: forall(rs []*mysql.Result, arsum(rs, 0) == 0 && stor(rs, 0) == 0 && minid(rs, 0) == 0)
+//@ axiom arsumStep for MergeExecResult: forall(rs []*mysql.Result, forall(i int, 1 <= i && i <= len(rs) ==> arsum(rs, i) == arsum(rs, i - 1) + rs[i-1].AffectedRows && stor(rs, i) == stor(rs, i - 1) | rs[i-1].Status))
+//@ axiom minidStep for MergeExecResult: forall(rs []*mysql.Result, forall(i int, 1 <= i && i <= len(rs) ==> minid(rs, i) == ite(minid(rs, i - 1) == 0, rs[i-1].InsertID, ite(rs[i-1].InsertID != 0 && minid(rs, i - 1) > rs[i-1].InsertID, rs[i-1].InsertID, minid(rs, i - 1)))))
+//@ trusted (*github.com/XiaoMi/Gaea/mysql.resultPool).GetWithoutResultSet
+//@   params rp
+//@   ensures ret0 != nil && fresh(ret0) && ret0.Status == 0 && ret0.InsertID == 0 && ret0.AffectedRows == 0
+//@   assigns \nothing
+//@ func MergeExecResult
+//@   mode bv
+//@   requires forall(k, 0, len(rs), rs[k] != nil && allocated(rs[k]))
+//@   loop 0 invariant r != nil && fresh(r) && r.AffectedRows == arsum(rs, rangeindex + 1) && r.Status == stor(rs, rangeindex + 1) && r.InsertID == minid(rs, rangeindex + 1)
+//@   loop 0 assigns r.AffectedRows, r.Status, r.InsertID
+//@   ensures ret1 == nil && ret0 != nil && ret0.AffectedRows == arsum(rs, len(rs)) && ret0.Status == stor(rs, len(rs)) && ret0.InsertID == minid(rs, len(rs))
